@@ -1083,6 +1083,8 @@ def classify_comments(t, got, info, tags, doc_lines=(), truth=None):
         adj0 = next((b for b in info if b["end"] + 1 == t["cline"] and b["tr"]), None)
         if adj0 is not None and adj0["target"] and got == adj0["tr"] and \
                 all(truth[k]["in_filter"] or truth[k]["hidden"] == "ns" for k in adj0["target"]):
+            # both names below are REGRESSION SITES without a matcher (F10 / F-C20-1 are repaired): a comment that moved on
+            # because its construct yielded nothing can only happen again if one of those repairs is lost
             return ("call-in-expression-filter-not-extracted" if any(truth[k]["in_filter"] and not truth[k]["hidden"] for k in adj0["target"])
                     else "call-inside-namespace-tag-body-not-extracted")
     if (len(got) > len(exp) and got[len(got) - len(exp):] == exp) if exp else bool(got):
@@ -1134,8 +1136,10 @@ def check_results(flavor, res, truth, info, rd, tags):
             if t["hidden"] == "skip":
                 bad.append(("call-inside-page-or-inherit-tag-body-not-extracted", "%s(%r) at line %d inside the body of a <%%page>/<%%inherit> tag is not reported" % (t["fn"], key, t["line"])))
             elif t["hidden"]:
+                # REGRESSION SITE - no matcher any more (F-C20-1 repaired in 79d0bc8)
                 bad.append(("call-inside-namespace-tag-body-not-extracted", "%s(%r) at line %d inside <%%namespace> is not reported" % (t["fn"], key, t["line"])))
             elif t["in_filter"]:
+                # REGRESSION SITE - no matcher any more (F10 repaired in 5365b81)
                 bad.append(("call-in-expression-filter-not-extracted", "%s(%r) at line %d in a filter list is not reported" % (t["fn"], key, t["line"])))
             else:
                 bad.append(("call-not-extracted:" + t["kind"], "%s(%r) at line %d is not reported" % (t["fn"], key, t["line"])))
@@ -1168,8 +1172,10 @@ def check_results(flavor, res, truth, info, rd, tags):
                 elif t["late"]:
                     bad.append(("wrong-line-deviates-from-recorded-behaviour:" + t["kind"], "lingua: %r written on line %d, reported on line %d; the recorded F7 behaviour reports line %d" % (key, t["line"], line, t["cline"] + t.get("rec_off", 0))))
                 elif line == t["line"] - 1:
+                    # REGRESSION SITE - no matcher any more (F-C20-2 repaired in ee690ea): any Lingua line that is one too low
                     bad.append(("lingua-line-one-less", "lingua: %r written on line %d, reported on line %d" % (key, t["line"], line)))
                 elif t["lead"] > 0 and line == t["line"] - 1 - t["lead"]:
+                    # REGRESSION SITE - no matcher any more (F-C20-3 repaired in ee690ea)
                     bad.append(("lingua-line-shifted-by-leading-blank-lines", "lingua: %r written on line %d, reported on line %d (%d leading newline(s) in the code)" % (key, t["line"], line, t["lead"])))
                 else:
                     bad.append(("wrong-line:" + t["kind"], "lingua: %r written on line %d, reported on line %d" % (key, t["line"], line)))
@@ -1252,6 +1258,8 @@ def oracle_case(impl, flavor, case, refine=True):
         except Exception:
             keep = None
         if keep is not None:
+            # REGRESSION SITE - no matcher in known_findings.json (F-C20-8 is repaired, 0b42cfd): reported as a new
+            # violation if the configured codec stops reaching Babel again
             bad = [b if (b[0], b[1]) in keep else ("babel-input-encoding-option-only", b[1] + "  [options = {'input_encoding': %r}; fine with {'encoding': ...}]" % case["enc_mode"].split(":")[1]) + tuple(b[2:])
                    for b in bad]
     out = []
